@@ -226,7 +226,44 @@ def observe(model, val):
             out["names_iterative"] = e
     finally:
         c15.restore_thresholds(old)
+    # the same model reached through EDITS: an earlier objective mentioned two more variables (listed, bounds read),
+    # then the real objective object was installed; and a sense flip back and forth with the same objective object.
+    # 'exactly those it mentions' speaks about the problem as it is now, not about its history.
+    from optyx import Variable
+    hist = {}
+    try:
+        p3, _ = LM.build_model(model, val)
+        real, setter = p3.objective, (p3.minimize if model["sense"] == "min" else p3.maximize)
+        other = p3.maximize if model["sense"] == "min" else p3.minimize
+        setter(real + 2.0 * Variable("zz9", lb=0.0) - Variable("a0"))
+        hist["before"] = [v.name for v in p3.variables]
+        p3.get_bounds()
+        setter(real)
+        hist["after-reobj"] = [v.name for v in p3.variables]
+        hist["after-reobj-n"] = (p3.n_variables, len(p3.get_bounds()))
+        other(real)
+        _ = p3.variables
+        setter(real)
+        hist["after-flip"] = [v.name for v in p3.variables]
+    except Exception as e:  # noqa: BLE001
+        hist["error"] = e
+    out["hist"] = hist
     return out
+
+
+def _hist_problem(out):
+    """None or a description of what is wrong with the listings obtained through the edit history"""
+    h = out["hist"]
+    if "error" in h:
+        return f"edit history raises {h['error']!r}"
+    if not {"zz9", "a0"} <= set(h["before"]):
+        return f"the earlier objective's extra variables are not listed: {h['before'][:8]}"
+    for k in ("after-reobj", "after-flip"):
+        if h[k] != out["names"]:
+            return f"{k}: variables {h[k][:8]} differ from those of the same problem built directly {out['names'][:8]}"
+    if h["after-reobj-n"] != (len(out["names"]), len(out["names"])):
+        return f"after-reobj: n_variables / len(get_bounds()) = {h['after-reobj-n']} for {len(out['names'])} variables"
+    return None
 
 
 def check_problem(model, planted=False):
@@ -264,6 +301,11 @@ def check_problem(model, planted=False):
             res.append(violation(f"C16|iterative-listing|{form}", f"{tag}: with the deep-tree traversals the variables are {out['names_iterative']!r}, with the recursive ones {out['names'][:8]}", dict(payload, th0=True)))
         else:
             res.append(proved(f"{tag}: deep-tree traversal lists the same variables"))
+        hp = _hist_problem(out)
+        if hp:
+            res.append(violation(f"C16|edit-history|{form}", f"{tag}: {hp}", dict(payload, hist=True)))
+        else:
+            res.append(proved(f"{tag}: same variables after replacing the objective / flipping the sense"))
         if out["n"] != len(out["names"]) or out["again"] != out["names"]:
             res.append(violation(f"C16|n_variables|{form}", f"{tag}: n_variables / repeated read inconsistent", payload))
         claims, bad = [], None
@@ -365,6 +407,8 @@ def replay(payload):
         return True, f"variables {sorted(set(got) - want)} extra, {sorted(want - set(got))} missing"
     if got != sorted(want, key=lambda n_: (natural_key(n_), n_)):
         return True, f"order {got[:8]} is not the natural order {sorted(want, key=natural_key)[:8]}"
+    if payload.get("hist") and _hist_problem(out):
+        return True, _hist_problem(out)
     if payload.get("th0") and (isinstance(out["names_iterative"], Exception) or out["names_iterative"] != got):
         return True, f"deep-tree traversal lists {out['names_iterative']!r}, recursive traversal {got}"
     for nme, (glb, gub) in zip(out["names"], out["bounds"]):
